@@ -926,7 +926,7 @@ Proof.
   destruct (a_handle a1 =? h); [split; assumption|exact IH].
 Qed.
 
-Lemma write_check_sim b a1 a2 : attr_sim b a1 a2 -> write_check b a1 = write_check b a2.
+Lemma write_check_sim b bw a1 a2 : attr_sim b a1 a2 -> write_check bw a1 = write_check bw a2.
 Proof.
   intros (_ & _ & Hp & _ & _ & Hw & Hc & _). unfold write_check. rewrite Hp, Hw, Hc. reflexivity.
 Qed.
@@ -960,10 +960,10 @@ Proof.
   split; [reflexivity|]. split; [apply db_set_sim; exact Hs|apply d11a_free_read_set].
 Qed.
 
-Lemma h_write_sim b subs op h v db1 db2 :
+Lemma h_write_sim b bw subs op h v db1 db2 :
   Forall2 (attr_sim b) db1 db2 ->
-  let r1 := h_write b db1 subs op h v in
-  let r2 := h_write b db2 subs op h v in
+  let r1 := h_write bw db1 subs op h v in
+  let r2 := h_write bw db2 subs op h v in
   snd r1 = snd r2 /\ snd (fst r1) = snd (fst r2) /\
   Forall2 (attr_sim b) (fst (fst r1)) (fst (fst r2)) /\
   d11a_free_read b (fst (fst r1)) = d11a_free_read b db1.
@@ -972,23 +972,23 @@ Proof.
   destruct (find_attr h db1) as [a1|], (find_attr h db2) as [a2|]; try contradiction;
     [|cbn; auto].
   destruct (MAX_VALUE_SIZE <? len v); [cbn; auto|].
-  rewrite <- (write_check_sim b a1 a2 Hf).
-  destruct (write_check b a1); cbn [fst snd]; [auto| |auto].
+  rewrite <- (write_check_sim b bw a1 a2 Hf).
+  destruct (write_check bw a1); cbn [fst snd]; [auto| |auto].
   destruct (store_sim b subs a1 a2 h v db1 db2 Hs Hf) as (H1 & H2 & H3). auto.
 Qed.
 
-Lemma h_write_cmd_sim b subs h v db1 db2 :
+Lemma h_write_cmd_sim b bw subs h v db1 db2 :
   Forall2 (attr_sim b) db1 db2 ->
-  let r1 := h_write_cmd b db1 subs h v in
-  let r2 := h_write_cmd b db2 subs h v in
+  let r1 := h_write_cmd bw db1 subs h v in
+  let r2 := h_write_cmd bw db2 subs h v in
   snd r1 = snd r2 /\ Forall2 (attr_sim b) (fst r1) (fst r2) /\
   d11a_free_read b (fst r1) = d11a_free_read b db1.
 Proof.
   intros Hs. cbn zeta. unfold h_write_cmd. pose proof (find_attr_sim b h db1 db2 Hs) as Hf.
   destruct (find_attr h db1) as [a1|], (find_attr h db2) as [a2|]; try contradiction; [|cbn; auto].
   destruct (MAX_VALUE_SIZE <? len v); [cbn; auto|].
-  rewrite <- (write_check_sim b a1 a2 Hf).
-  destruct (write_check b a1); cbn [fst snd]; [auto| |auto].
+  rewrite <- (write_check_sim b bw a1 a2 Hf).
+  destruct (write_check bw a1); cbn [fst snd]; [auto| |auto].
   apply store_sim; assumption.
 Qed.
 
@@ -1024,7 +1024,7 @@ Proof.
     + cbn [s_b s_db]. exact Hd.
   - (* write request *)
     rewrite <- Hb, <- Hsub.
-    pose proof (h_write_sim (s_b st1) (s_subs st1) op h v (s_db st1) (s_db st2) Hdb) as Hws.
+    pose proof (h_write_sim (s_b st1) (s_b st1) (s_subs st1) op h v (s_db st1) (s_db st2) Hdb) as Hws.
     cbn zeta in Hws. destruct Hws as (Ho & Hsb & Hf & Hk).
     destruct (h_write (s_b st1) (s_db st1) (s_subs st1) op h v) as [[db1 sb1] p1].
     destruct (h_write (s_b st1) (s_db st2) (s_subs st1) op h v) as [[db2 sb2] p2].
@@ -1035,7 +1035,7 @@ Proof.
     + unfold set_dbs. cbn [s_db s_b fst]. rewrite Hk. exact Hd.
   - (* write command *)
     rewrite <- Hb, <- Hsub.
-    pose proof (h_write_cmd_sim (s_b st1) (s_subs st1) h v (s_db st1) (s_db st2) Hdb) as Hws.
+    pose proof (h_write_cmd_sim (s_b st1) (s_b st1) (s_subs st1) h v (s_db st1) (s_db st2) Hdb) as Hws.
     cbn zeta in Hws. destruct Hws as (Hsb & Hf & Hk).
     destruct (h_write_cmd (s_b st1) (s_db st1) (s_subs st1) h v) as [db1 sb1].
     destruct (h_write_cmd (s_b st1) (s_db st2) (s_subs st1) h v) as [db2 sb2].
@@ -1358,4 +1358,277 @@ Proof.
     - destruct (notify st h v force); eauto.
     - destruct (indicate st h v force); eauto. }
   destruct Hs as (st1 & out & ->). destruct (IH st1) as (st2 & outs & ->). eauto.
+Qed.
+
+(* ================================================================== several bearers on one server *)
+Lemma nth_set_same {A} (l : list A) : forall i x y, nth_error l i = Some y -> nth_error (set_nth i x l) i = Some x.
+Proof.
+  induction l as [|z l IH]; intros [|i] x y H; cbn in *; try discriminate; [reflexivity|].
+  eapply IH; exact H.
+Qed.
+
+Lemma nth_set_other {A} (l : list A) : forall i j x, i <> j -> nth_error (set_nth j x l) i = nth_error l i.
+Proof.
+  induction l as [|z l IH]; intros [|i] [|j] x H; cbn; try reflexivity; [contradiction|].
+  apply IH. congruence.
+Qed.
+
+Lemma Forall2_set_nth {A} (R : A -> A -> Prop) l1 : forall l2 j x1 x2,
+  Forall2 R l1 l2 -> R x1 x2 -> Forall2 R (set_nth j x1 l1) (set_nth j x2 l2).
+Proof.
+  induction l1 as [|a l1 IH]; intros l2 j x1 x2 HF HR; inversion HF; subst; destruct j; cbn;
+    constructor; auto.
+Qed.
+
+Lemma Forall2_nth {A} (R : A -> A -> Prop) l1 : forall l2 j,
+  Forall2 R l1 l2 ->
+  match nth_error l1 j, nth_error l2 j with
+  | Some x, Some y => R x y
+  | None, None => True
+  | _, _ => False
+  end.
+Proof.
+  induction l1 as [|a l1 IH]; intros l2 j HF; inversion HF; subst; destruct j; cbn; auto.
+  apply IH. assumption.
+Qed.
+
+(* the response to a stimulus on bearer i, the new database and bearer i's new state depend
+   only on the database, max_mtu and bearer i's own state *)
+Lemma mstep_local m1 m2 i o :
+  m_db m1 = m_db m2 -> m_max_mtu m1 = m_max_mtu m2 ->
+  nth_error (m_bs m1) i = nth_error (m_bs m2) i ->
+  match mstep m1 i o, mstep m2 i o with
+  | Some (n1, o1), Some (n2, o2) =>
+      o1 = o2 /\ m_db n1 = m_db n2 /\ nth_error (m_bs n1) i = nth_error (m_bs n2) i
+  | None, None => True
+  | _, _ => False
+  end.
+Proof.
+  intros Hd Hx Hn. unfold mstep.
+  destruct (nth_error (m_bs m1) i) as [x|] eqn:E; rewrite <- Hn;
+    [|split; [reflexivity|split; [exact Hd|congruence]]].
+  assert (Hp : proj m1 x = proj m2 x) by (unfold proj; rewrite Hd, Hx; reflexivity).
+  rewrite <- Hp. destruct (step (proj m1 x) o) as [[st' out]|]; [|exact I].
+  cbn [m_db m_bs]. split; [reflexivity|split; [reflexivity|]].
+  rewrite (nth_set_same _ i _ x E), (nth_set_same _ i _ x (eq_sym Hn)). reflexivity.
+Qed.
+
+(* a stimulus on bearer j leaves every other bearer's state untouched *)
+Lemma mstep_frame m j o n out i :
+  mstep m j o = Some (n, out) -> i <> j -> nth_error (m_bs n) i = nth_error (m_bs m) i.
+Proof.
+  unfold mstep. intros H Hij. destruct (nth_error (m_bs m) j) as [x|]; [|inversion H; reflexivity].
+  destruct (step (proj m x) o) as [[st' out']|]; [|discriminate]. inversion H; subst. cbn [m_bs].
+  apply nth_set_other. exact Hij.
+Qed.
+
+(* --- non-interference with other bearers acting in between *)
+Definition sec_eq (b b' : bearer) : Prop := b_enc b = b_enc b' /\ b_auth b = b_auth b'.
+
+Lemma attr_sim_sec b b' a1 a2 : sec_eq b b' -> attr_sim b a1 a2 -> attr_sim b' a1 a2.
+Proof.
+  intros (He & Ha). unfold attr_sim, may_read, link_ok_read. rewrite He, Ha. tauto.
+Qed.
+
+Lemma d11a_free_read_sec b b' db : sec_eq b b' -> d11a_free_read b db = d11a_free_read b' db.
+Proof.
+  intros (He & Ha). unfold d11a_free_read, d11a_read_witness, link_ok_read. rewrite He, Ha. reflexivity.
+Qed.
+
+Lemma Forall2_attr_sim_sec b b' db1 db2 :
+  sec_eq b b' -> Forall2 (attr_sim b) db1 db2 -> Forall2 (attr_sim b') db1 db2.
+Proof.
+  intros Hs H. induction H as [|a1 a2 l1 l2 Ha Hl IH]; constructor; [|exact IH].
+  eapply attr_sim_sec; eassumption.
+Qed.
+
+(* a step never changes the security attributes of its bearer *)
+Lemma step_sec st o st' out : step st o = Some (st', out) -> sec_eq (s_b st') (s_b st).
+Proof.
+  intros Hs. destruct o as [opc ps| |h v f|h v f]; cbn [step] in Hs.
+  - apply rx_cases in Hs. destruct Hs as [(m & Hs)|[(_ & Hs)|Hs]].
+    + unfold h_mtu in Hs. inversion Hs; subst. destruct (DEFAULT_MTU <=? m); split; reflexivity.
+    + unfold h_confirm in Hs. destruct (s_pending st); [destruct (s_waiting st)|];
+        inversion Hs; subst; split; reflexivity.
+    + destruct Hs as (_ & _ & _ & _ & Hb & _). rewrite Hb. split; reflexivity.
+  - unfold h_confirm in Hs. destruct (s_pending st); [destruct (s_waiting st)|];
+      inversion Hs; subst; split; reflexivity.
+  - unfold notify in Hs. destruct (find_attr h (s_db st)); [|inversion Hs; split; reflexivity].
+    destruct (f || _); [|inversion Hs; split; reflexivity].
+    destruct (server_value st a v); inversion Hs; split; reflexivity.
+  - unfold indicate in Hs. destruct (find_attr h (s_db st)); [|inversion Hs; split; reflexivity].
+    destruct (f || _); [|inversion Hs; split; reflexivity].
+    destruct (server_value st a v); [|inversion Hs; split; reflexivity].
+    destruct (s_pending st); inversion Hs; split; reflexivity.
+Qed.
+
+(* What a step does to the database, the ATT_MTU and the subscriptions does not depend on the
+   values of attributes, nor on the indication state: two states of the SAME bearer over
+   databases that are similar for some observer b0 evolve into such states again. *)
+Definition weak_rel (b0 : bearer) (st1 st2 : srv) : Prop :=
+  Forall2 (attr_sim b0) (s_db st1) (s_db st2) /\ s_b st1 = s_b st2 /\
+  s_max_mtu st1 = s_max_mtu st2 /\ s_subs st1 = s_subs st2.
+
+Definition weak_step_rel (b0 : bearer) (d0 : list attr) (r1 r2 : option (srv * list bytes)) : Prop :=
+  match r1, r2 with
+  | Some (t1, _), Some (t2, _) =>
+      weak_rel b0 t1 t2 /\ d11a_free_read b0 (s_db t1) = d11a_free_read b0 d0
+  | None, None => True
+  | _, _ => False
+  end.
+
+Lemma weak_out b0 st1 t1 t2 o1 o2 :
+  weak_rel b0 t1 t2 -> s_db t1 = s_db st1 ->
+  weak_step_rel b0 (s_db st1) (Some (t1, o1)) (Some (t2, o2)).
+Proof. intros H E. split; [exact H|]. rewrite E. reflexivity. Qed.
+
+Lemma handle_weak b0 st1 st2 op r :
+  weak_rel b0 st1 st2 -> weak_step_rel b0 (s_db st1) (handle st1 op r) (handle st2 op r).
+Proof.
+  intros Hw. pose proof Hw as (Hdb & Hb & Hx & Hsub). unfold handle.
+  destruct r; try (apply weak_out; [exact Hw|reflexivity]); try exact I.
+  - (* MTU *)
+    unfold h_mtu. rewrite <- Hx. destruct (DEFAULT_MTU <=? m); apply weak_out; try reflexivity; [|exact Hw].
+    unfold weak_rel, set_mtu. cbn [s_db s_b s_max_mtu s_subs]. rewrite <- Hb. repeat split; assumption.
+  - (* write request *)
+    rewrite <- Hb, <- Hsub.
+    pose proof (h_write_sim b0 (s_b st1) (s_subs st1) op h v (s_db st1) (s_db st2) Hdb) as Hws.
+    cbn zeta in Hws. destruct Hws as (_ & Hsb & Hf & Hk).
+    destruct (h_write (s_b st1) (s_db st1) (s_subs st1) op h v) as [[db1 sb1] p1].
+    destruct (h_write (s_b st1) (s_db st2) (s_subs st1) op h v) as [[db2 sb2] p2].
+    cbn [fst snd] in *. subst sb2. split; [|exact Hk].
+    unfold weak_rel, set_dbs. cbn [s_db s_b s_max_mtu s_subs fst snd]. repeat split; assumption.
+  - (* write command *)
+    rewrite <- Hb, <- Hsub.
+    pose proof (h_write_cmd_sim b0 (s_b st1) (s_subs st1) h v (s_db st1) (s_db st2) Hdb) as Hws.
+    cbn zeta in Hws. destruct Hws as (Hsb & Hf & Hk).
+    destruct (h_write_cmd (s_b st1) (s_db st1) (s_subs st1) h v) as [db1 sb1].
+    destruct (h_write_cmd (s_b st1) (s_db st2) (s_subs st1) h v) as [db2 sb2].
+    cbn [fst snd] in *. subst sb2. split; [|exact Hk].
+    unfold weak_rel, set_dbs. cbn [s_db s_b s_max_mtu s_subs fst snd]. repeat split; assumption.
+  - (* confirmation: only the indication state changes *)
+    unfold h_confirm.
+    destruct (s_pending st1), (s_pending st2);
+      try destruct (s_waiting st1); try destruct (s_waiting st2); apply weak_out; try reflexivity;
+      unfold weak_rel, set_ind; cbn [s_db s_b s_max_mtu s_subs]; repeat split; assumption.
+Qed.
+
+Lemma step_weak b0 st1 st2 o :
+  weak_rel b0 st1 st2 -> weak_step_rel b0 (s_db st1) (step st1 o) (step st2 o).
+Proof.
+  intros Hw. pose proof Hw as (Hdb & Hb & Hx & Hsub).
+  destruct o as [opc ps| |h v f|h v f]; cbn [step].
+  - unfold rx. destruct (parse_pdu opc ps) as [|r]; [apply weak_out; [exact Hw|reflexivity]|].
+    destruct (assoc opc m_handlers); [apply handle_weak; exact Hw|apply weak_out; [exact Hw|reflexivity]].
+  - apply (handle_weak b0 st1 st2 30 RConfirm Hw).
+  - unfold notify.
+    pose proof (find_attr_sim b0 h _ _ Hdb) as Hf.
+    destruct (find_attr h (s_db st1)) as [a1|], (find_attr h (s_db st2)) as [a2|]; try contradiction;
+      [|apply weak_out; [exact Hw|reflexivity]].
+    destruct (f || cccd_allows 0 (s_subs st1) h), (f || cccd_allows 0 (s_subs st2) h);
+      try destruct (server_value st1 a1 v); try destruct (server_value st2 a2 v);
+      (apply weak_out; [exact Hw|reflexivity]).
+  - unfold indicate.
+    pose proof (find_attr_sim b0 h _ _ Hdb) as Hf.
+    assert (Hk : forall p1 w1 p2 w2, weak_rel b0 (set_ind st1 p1 w1) (set_ind st2 p2 w2))
+      by (intros; unfold weak_rel, set_ind; cbn [s_db s_b s_max_mtu s_subs]; repeat split; assumption).
+    destruct (find_attr h (s_db st1)) as [a1|], (find_attr h (s_db st2)) as [a2|]; try contradiction;
+      [|apply weak_out; [exact Hw|reflexivity]].
+    destruct (f || cccd_allows 1 (s_subs st1) h), (f || cccd_allows 1 (s_subs st2) h);
+      try destruct (server_value st1 a1 v); try destruct (server_value st2 a2 v);
+      try destruct (s_pending st1); try destruct (s_pending st2);
+      (apply weak_out; [first [exact Hw|apply Hk]|reflexivity]).
+Qed.
+
+(* Two servers seen by the observer on bearer i (security b0): similar databases, the same
+   bearers with the same ATT_MTU and subscriptions (the other bearers' indication state may
+   differ: what they were sent may contain values the observer must not see), bearer i in
+   exactly the same state. *)
+Definition bst_weak (x y : bst) : Prop := bs_b x = bs_b y /\ bs_subs x = bs_subs y.
+
+Definition msim (i : nat) (b0 : bearer) (m1 m2 : msrv) : Prop :=
+  Forall2 (attr_sim b0) (m_db m1) (m_db m2) /\ m_max_mtu m1 = m_max_mtu m2 /\
+  Forall2 bst_weak (m_bs m1) (m_bs m2) /\ nth_error (m_bs m1) i = nth_error (m_bs m2) i /\
+  (forall x, nth_error (m_bs m1) i = Some x -> sec_eq (bs_b x) b0) /\
+  d11a_free_read b0 (m_db m1) = true.
+
+Lemma mstep_sim i b0 m1 m2 j o :
+  msim i b0 m1 m2 ->
+  match mstep m1 j o, mstep m2 j o with
+  | Some (n1, o1), Some (n2, o2) => msim i b0 n1 n2 /\ (j = i -> o1 = o2)
+  | None, None => True
+  | _, _ => False
+  end.
+Proof.
+  intros (Hdb & Hx & Hbs & Hi & Hsec & Hd). unfold mstep.
+  pose proof (Forall2_nth bst_weak _ _ j Hbs) as Hj.
+  destruct (Nat.eq_dec j i) as [->|Hne].
+  - (* the observer's own stimulus *)
+    rewrite <- Hi in *. destruct (nth_error (m_bs m1) i) as [x|] eqn:E.
+    + pose proof (Hsec x eq_refl) as Hs.
+      assert (Hs' : sec_eq b0 (bs_b x)) by (destruct Hs; split; congruence).
+      assert (Hst : st_sim (proj m1 x) (proj m2 x)).
+      { unfold st_sim, proj. cbn [s_db s_b s_max_mtu s_subs s_pending s_waiting].
+        repeat split; try assumption. eapply Forall2_attr_sim_sec; eassumption. }
+      assert (Hdf : d11a_free_read (s_b (proj m1 x)) (s_db (proj m1 x)) = true).
+      { cbn [proj s_b s_db]. rewrite (d11a_free_read_sec (bs_b x) b0 _ Hs). exact Hd. }
+      pose proof (step_sim _ _ o Hst Hdf) as Hstep.
+      destruct (step (proj m1 x) o) as [[t1 o1]|] eqn:E1, (step (proj m2 x) o) as [[t2 o2]|];
+        cbn in Hstep; try contradiction; [|exact I].
+      destruct Hstep as (-> & (Hdb' & Hb' & _ & Hsub' & Hp' & Hw') & Hd').
+      pose proof (step_sec _ _ _ _ E1) as Hsec1. cbn [proj s_b] in Hsec1.
+      assert (Hs1 : sec_eq (s_b t1) b0) by (destruct Hsec1, Hs; split; congruence).
+      assert (Hbst : bst_of t1 = bst_of t2) by (unfold bst_of; rewrite Hb', Hsub', Hp', Hw'; reflexivity).
+      split; [|reflexivity]. unfold msim. cbn [m_db m_max_mtu m_bs].
+      split; [eapply Forall2_attr_sim_sec; [|exact Hdb']; exact Hs1|].
+      split; [exact Hx|].
+      split; [apply Forall2_set_nth; [exact Hbs|rewrite Hbst; split; reflexivity]|].
+      split; [rewrite (nth_set_same (m_bs m1) i _ x E), Hbst, (nth_set_same (m_bs m2) i _ x (eq_sym Hi)); reflexivity|].
+      split.
+      * intros y Hy. rewrite (nth_set_same (m_bs m1) i _ x E) in Hy. inversion Hy; subst. exact Hs1.
+      * rewrite <- (d11a_free_read_sec (s_b t1) b0 _ Hs1). exact Hd'.
+    + split; [|reflexivity]. unfold msim.
+      split; [exact Hdb|]. split; [exact Hx|]. split; [exact Hbs|].
+      split; [rewrite E; exact Hi|]. split; [|exact Hd].
+      intros y Hy. rewrite E in Hy. discriminate.
+  - (* another bearer's stimulus *)
+    destruct (nth_error (m_bs m1) j) as [x1|] eqn:E1, (nth_error (m_bs m2) j) as [x2|] eqn:E2;
+      try contradiction.
+    + destruct Hj as (Hb & Hsub).
+      assert (Hw : weak_rel b0 (proj m1 x1) (proj m2 x2))
+        by (unfold weak_rel, proj; cbn [s_db s_b s_max_mtu s_subs]; repeat split; assumption).
+      pose proof (step_weak b0 _ _ o Hw) as Hstep.
+      destruct (step (proj m1 x1) o) as [[t1 o1]|], (step (proj m2 x2) o) as [[t2 o2]|];
+        cbn in Hstep; try contradiction; [|exact I].
+      destruct Hstep as ((Hdb' & Hb' & _ & Hsub') & Hd'). cbn [proj s_db] in Hd'.
+      split; [|intros; contradiction]. unfold msim. cbn [m_db m_max_mtu m_bs].
+      split; [exact Hdb'|]. split; [exact Hx|].
+      split; [apply Forall2_set_nth; [exact Hbs|split; assumption]|].
+      assert (Hij : i <> j) by congruence.
+      split; [rewrite !(nth_set_other _ i j _ Hij); exact Hi|].
+      split.
+      * intros y Hy. rewrite (nth_set_other _ i j _ Hij) in Hy. apply Hsec. exact Hy.
+      * rewrite Hd'. exact Hd.
+    + split; [|intros; contradiction]. unfold msim.
+      split; [exact Hdb|]. split; [exact Hx|]. split; [exact Hbs|]. split; [exact Hi|].
+      split; [exact Hsec|exact Hd].
+Qed.
+
+(* Over every history of stimuli on any bearers: what the observer on bearer i is sent does
+   not depend on values it may not read -- whatever the other bearers do in between. *)
+Lemma mrun_sim ops : forall i b0 m1 m2,
+  msim i b0 m1 m2 ->
+  option_map (fun r => outs_of i (snd r)) (mrun m1 ops) =
+  option_map (fun r => outs_of i (snd r)) (mrun m2 ops).
+Proof.
+  induction ops as [|[j o] ops IH]; intros i b0 m1 m2 Hs; cbn [mrun]; [reflexivity|].
+  pose proof (mstep_sim i b0 m1 m2 j o Hs) as H.
+  destruct (mstep m1 j o) as [[n1 o1]|], (mstep m2 j o) as [[n2 o2]|]; try contradiction; [|reflexivity].
+  destruct H as (Hs' & Ho). specialize (IH i b0 n1 n2 Hs').
+  destruct (mrun n1 ops) as [[k1 outs1]|], (mrun n2 ops) as [[k2 outs2]|]; cbn in IH |- *;
+    try discriminate; [|reflexivity].
+  inversion IH as [IH']. unfold outs_of. cbn [filter fst].
+  destruct (Nat.eqb j i) eqn:E.
+  - apply Nat.eqb_eq in E. rewrite (Ho E). cbn [map snd]. unfold outs_of in IH'. rewrite IH'. reflexivity.
+  - unfold outs_of in IH'. rewrite IH'. reflexivity.
 Qed.
